@@ -1077,6 +1077,10 @@ impl DdlExecutor {
                         entry_values.push(row[col_idx].clone());
                     }
                 }
+                // Rows with a NULL key have no index entry (see maintain_secondary_indexes).
+                if entry_values.iter().any(|v| v.is_null()) {
+                    continue;
+                }
                 entry_values.push(DataType::BigUInt(UInt64(*value)));
 
                 index_entries.push(Row::new(entry_values.into_boxed_slice()));
